@@ -177,7 +177,7 @@ func TestTCP(t *testing.T) {
 		return
 	}
 	r.Rule("TCP: command sequences from per-protocol grammars (ftp, smtp incl. DATA/BDAT, redis, memcached, telnet, http keep-alive, elasticsearch, eos, ethereum, docker, cwmp, ldap) plus telnet / ftp / memcached / smtp dialogs with 2-, 3- and 4-byte UTF-8 characters in their text fields, delivered through the real server on the in-memory listener as a single write (pipelined), lock-step, k random cuts (half of them inside a multi-byte character when there is one) and 1-byte dribble; oracle = expected event list computed from the generated command list (reference) AND equality with the single-write event list (metamorphic); non-trivial = >=2 commands and (a cut or >=2 requests in one write); distinct by wire bytes + delivery")
-	r.Rapid(t, "TestTCP", r.Pick(560, 2000), func(rt *rapid.T) {
+	r.Rapid(t, "TestTCP", r.Pick(560, 1500), func(rt *rapid.T) {
 		service := rapid.SampledFrom(tcpKinds).Draw(rt, "service")
 		d, hot := genTCPHot(rt, service)
 		mode := rapid.SampledFrom([]string{"single", "lockstep", "cuts", "cuts", "dribble"}).Draw(rt, "mode")
